@@ -16,6 +16,24 @@ CHECKS = {
             "nothing outside it.",
             "scope bounds as stated; alphabet of three letters stands for all byte values; compilers g++12/clang++14",
             "DESIGN.md section 3, C14"),
+    "C13": ("exploration",
+            "lock-step comparison with a std::vector model after every operation (exhaustive DFS + seeded random walks), "
+            "canaries, ASan+UBSan, sbepp assertion handler",
+            "Every dynamic_array_ref mutator and reader is driven through all operation sequences to depth 2 (quick) / 3 "
+            "(thorough) from every state of size <= 3 and through long random sequences, for all 24 length-type x "
+            "element-type x byte-order instantiations; after each transition prefix, payload, returned iterator, "
+            "canaries and untouched tail are compared with std::vector, and a vector-valid call that invokes the "
+            "assertion handler is a violation. Held on the transitions observed, nothing more.",
+            "sequences bounded as stated; operations limited to those valid for a vector that fit the buffer",
+            "DESIGN.md section 3, C13"),
+    "C15": ("exploration",
+            "in-process uint64 bit-arithmetic oracle over generated sets (exhaustive 8/16 bit, patterns+random 32/64), "
+            "UBSan shift checks, constexpr evaluation leg",
+            "sbeppc generates sets for all four widths with every choice index; each generated getter/setter/by-tag "
+            "accessor, ==, raw access and visit is executed on all (8/16 bit) or thousands (32/64 bit) of underlying "
+            "values and compared with plain bit arithmetic, at run time and in constant expressions, under UBSan.",
+            "32/64-bit values are sampled; g++12/clang++14 only",
+            "DESIGN.md section 3, C15"),
 }
 
 
